@@ -61,23 +61,23 @@ inductive Cls (S : List SubnetDecl) (R : Rng) : Prop
   | blk (s : SubnetDecl) (hs : s ∈ S) (hb : IsBlk s R)
   | half (s : SubnetDecl) (hs : s ∈ S) (hn : s.net = 0) (ho : s.ones = 0) (hlo : R.lo = afterIPv4)
       (hhi : R.hi = TOP) (hlen : R.len = 0) (hloc : R.loc = some s.loc)
-  | r4 (he : R = R4) (hno : ∀ s ∈ S, s.net ≠ firstIPv4)
-  | r6a (he : R = R6a) (hno : ∀ s ∈ S, s.net ≠ 0)
-  | r6b (he : R = R6b) (hno : ∀ s ∈ S, s.net ≠ 0)
+  | r4 (he : R = R4) (hno : ∀ s ∈ S, ¬ (s.net = firstIPv4 ∧ s.ones = 96))
+  | r6a (he : R = R6a) (hno : ∀ s ∈ S, ¬ (s.net = 0 ∧ s.ones = 0))
+  | r6b (he : R = R6b) (hno : ∀ s ∈ S, ¬ (s.net = 0 ∧ s.ones = 0))
 
-theorem hasV4_false {S : List SubnetDecl} : hasV4 S = false ↔ ∀ s ∈ S, s.net ≠ firstIPv4 := by
+theorem hasV4_false {S : List SubnetDecl} :
+    hasV4 S = false ↔ ∀ s ∈ S, ¬ (s.net = firstIPv4 ∧ s.ones = 96) := by
   simp [hasV4]
 
-theorem hasV6_false {S : List SubnetDecl} : hasV6 S = false ↔ ∀ s ∈ S, s.net ≠ 0 := by
+theorem hasV6_false {S : List SubnetDecl} : hasV6 S = false ↔ ∀ s ∈ S, ¬ (s.net = 0 ∧ s.ones = 0) := by
   simp [hasV6]
 
 theorem mem_rngOf {S : List SubnetDecl} (h : SubsWF S) {s : SubnetDecl} (hs : s ∈ S) {R : Rng}
     (hR : R ∈ rngOf s) : Cls S R := by
-  have hw2 := h.w2 s hs
   unfold rngOf at hR
   split at hR
   next h0 =>
-    have ho := hw2.1 h0
+    obtain ⟨h0, ho⟩ := h0
     rcases List.mem_cons.1 hR with rfl | hR
     · exact .blk s hs ⟨h0.symm, by simp [h0, ho, TOP], rfl, rfl⟩
     · rcases List.mem_cons.1 hR with rfl | hR
@@ -86,7 +86,7 @@ theorem mem_rngOf {S : List SubnetDecl} (h : SubsWF S) {s : SubnetDecl} (hs : s 
   next h0 =>
     split at hR
     next h4 =>
-      have ho := hw2.2 h4
+      obtain ⟨h4, ho⟩ := h4
       rcases List.mem_cons.1 hR with rfl | hR
       · exact .blk s hs ⟨h4.symm, by simp [h4, ho, firstIPv4_val, afterIPv4_val], rfl, rfl⟩
       · cases hR
@@ -119,24 +119,23 @@ theorem mem_famOf' {S : List SubnetDecl} (h : SubsWF S) {R : Rng} (hR : R ∈ fa
 /-- every subnet has its block range in the family -/
 theorem blk_mem {S : List SubnetDecl} (h : SubsWF S) {s : SubnetDecl} (hs : s ∈ S) :
     ∃ R ∈ famOf S, IsBlk s R := by
-  have hw2 := h.w2 s hs
   have hsub : ∀ R, R ∈ rngOf s → R ∈ famOf S := fun R hR =>
     List.mem_append_left _ (List.mem_append_left _ (List.mem_flatMap.2 ⟨s, hs, hR⟩))
-  by_cases h0 : s.net = 0
-  · have ho := hw2.1 h0
-    refine ⟨⟨0, TOP, s.ones, some s.loc, none⟩, hsub _ (by simp [rngOf, h0]), ?_⟩
-    exact ⟨h0.symm, by simp [h0, ho, TOP], rfl, rfl⟩
-  · by_cases h4 : s.net = firstIPv4
-    · have ho := hw2.2 h4
-      refine ⟨⟨firstIPv4, afterIPv4, s.ones, some s.loc, some s.loc⟩, hsub _ ?_, ?_⟩
+  by_cases h0 : s.net = 0 ∧ s.ones = 0
+  · refine ⟨⟨0, TOP, s.ones, some s.loc, none⟩, hsub _ ?_, ?_⟩
+    · unfold rngOf; rw [if_pos h0]; exact List.mem_cons_self
+    · exact ⟨h0.1.symm, by simp [h0.1, h0.2, TOP], rfl, rfl⟩
+  · by_cases h4 : s.net = firstIPv4 ∧ s.ones = 96
+    · refine ⟨⟨firstIPv4, afterIPv4, s.ones, some s.loc, some s.loc⟩, hsub _ ?_, ?_⟩
       · unfold rngOf; rw [if_neg h0, if_pos h4]; exact List.mem_singleton.2 rfl
-      · exact ⟨h4.symm, by simp [h4, ho, firstIPv4_val, afterIPv4_val], rfl, rfl⟩
+      · exact ⟨h4.1.symm, by simp [h4.1, h4.2, firstIPv4_val, afterIPv4_val], rfl, rfl⟩
     · refine ⟨⟨s.net, s.net + 2 ^ (128 - s.ones), s.ones, some s.loc, none⟩, hsub _ ?_,
         ⟨rfl, rfl, rfl, rfl⟩⟩
       unfold rngOf; rw [if_neg h0, if_neg h4, blockStart_aligned (h.aligned s hs)]
       exact List.mem_singleton.2 rfl
 
-theorem R4_mem {S : List SubnetDecl} (hno : ∀ s ∈ S, s.net ≠ firstIPv4) : R4 ∈ famOf S := by
+theorem R4_mem {S : List SubnetDecl} (hno : ∀ s ∈ S, ¬ (s.net = firstIPv4 ∧ s.ones = 96)) :
+    R4 ∈ famOf S := by
   unfold famOf
   rw [hasV4_false.2 hno]
   exact List.mem_append_left _ (List.mem_append_right _ (List.mem_singleton.2 rfl))
@@ -222,16 +221,13 @@ theorem fam_of_contains {S : List SubnetDecl} (h : SubsWF S) {s : SubnetDecl} (h
       have e3 : blockSize s.ones = 2 ^ (128 - s.ones) := rfl
       rw [e1, e2, e3] at hlam
       have hw3 := h.w3 s hs
-      have hw2 := h.w2 s hs
-      by_cases h0 : s.net = 0
-      · exact ⟨h0, hw2.1 h0, rfl⟩
-      · by_cases hf : s.net = firstIPv4
-        · have := hw2.2 hf; omega
-        · exfalso
-          apply hw3 h0 hf
-          rw [firstIPv4_val, afterIPv4_val] at *
-          generalize 2 ^ (128 - s.ones) = sz at *
-          omega
+      by_cases h0 : s.net = 0 ∧ s.ones = 0
+      · exact ⟨h0.1, h0.2, rfl⟩
+      · exfalso
+        apply hw3 h0 (fun hf => by omega)
+        rw [firstIPv4_val, afterIPv4_val] at *
+        generalize 2 ^ (128 - s.ones) = sz at *
+        omega
 
 /-- an aligned IPv4 address has a client prefix of at least 96 bits -/
 theorem req_ge_of_v4 {a req : Nat} (hal : a % 2 ^ (128 - req) = 0) (hv : isV4Addr a = true) :
@@ -290,7 +286,7 @@ theorem inner_eq_lpm {S : List SubnetDecl} (h : SubsWF S) {m : Bytes} (hm : ∀ 
       obtain ⟨b1, b2, b3, b4⟩ := hb
       have hsw : s = w := by
         rcases blk_qual h hm hs (a := a) (req := req) (by omega) (by omega) (by omega) with
-          hq | ⟨e1, e2, _⟩
+          hq | ⟨e1, e2, e3⟩
         · have hle := hwmax s hs hq
           have hpow : 2 ^ (128 - s.ones) ≤ 2 ^ (128 - w.ones) := by omega
           have hexp : 128 - s.ones ≤ 128 - w.ones :=
@@ -299,8 +295,11 @@ theorem inner_eq_lpm {S : List SubnetDecl} (h : SubsWF S) {m : Bytes} (hm : ∀ 
             have := h.ones_le s hs; have := h.ones_le w hwS; omega
           have hn : s.net = w.net := by rw [ho] at b2; omega
           exact w1_eq h hs hwS hn ho
-        · have hw0 : w.net = 0 := by omega
-          exact w1_eq h hs hwS (by omega) (by rw [e2, (h.w2 w hwS).1 hw0])
+        · -- `w` starts at `::`, so it is not of the IPv4 family, but `a` is
+          exfalso
+          have hw0 : w.net = 0 := by omega
+          have : w.isV4 = false := by simp [SubnetDecl.isV4, hw0, isV4Addr]
+          rw [this, e3] at hwf; cases hwf
       subst hsw; rw [b3, b4]
     | half s hs hn0 ho hlo' hhi' hlen' hloc =>
       obtain ⟨e1, e2⟩ := top_sub h hwS (by omega) (by omega)
@@ -309,15 +308,14 @@ theorem inner_eq_lpm {S : List SubnetDecl} (h : SubsWF S) {m : Bytes} (hm : ∀ 
     | r4 he hno =>
       exfalso; subst he
       have hv : isV4Addr a = true := (isV4Addr_iff a).2 ⟨hlo, hhi⟩
-      by_cases h0 : w.net = 0
-      · have ho := (h.w2 w hwS).1 h0
-        have : w.isV4 = false := by simp [SubnetDecl.isV4, ho]
+      by_cases h0 : w.net = 0 ∧ w.ones = 0
+      · have : w.isV4 = false := by simp [SubnetDecl.isV4, h0.2]
         rw [this, hv] at hwf; cases hwf
-      · by_cases hf : w.net = firstIPv4
-        · exact hno w hwS hf
-        · exact h.w3 w hwS h0 hf ⟨hs1, hs2⟩
-    | r6a he hno => subst he; exact absurd (Nat.le_zero.1 hs1) (hno w hwS)
-    | r6b he hno => subst he; exact absurd (top_sub h hwS hs1 hs2).1 (hno w hwS)
+      · exact h.w3 w hwS h0 (hno w hwS) ⟨hs1, hs2⟩
+    | r6a he hno =>
+      subst he
+      exact absurd (top_sub h hwS (by rw [Nat.le_zero.1 hs1]; exact Nat.zero_le _) hs2) (hno w hwS)
+    | r6b he hno => subst he; exact absurd (top_sub h hwS hs1 hs2) (hno w hwS)
   | none =>
     show (H.loc, H.len) = (none, 0)
     have hn := lpm_none.1 hl
@@ -326,9 +324,9 @@ theorem inner_eq_lpm {S : List SubnetDecl} (h : SubsWF S) {m : Bytes} (hm : ∀ 
       rw [hv] at hn
       obtain ⟨v1, v2⟩ := (isV4Addr_iff a).1 hv
       have hreq96 := req_ge_of_v4 hal hv
-      have hno4 : ∀ s ∈ S, s.net ≠ firstIPv4 := by
-        intro s hs e
-        have ho := (h.w2 s hs).2 e
+      have hno4 : ∀ s ∈ S, ¬ (s.net = firstIPv4 ∧ s.ones = 96) := by
+        intro s hs e'
+        obtain ⟨e, ho⟩ := e'
         have e32 : (2 : Nat) ^ (128 - 96) = 4294967296 := rfl
         refine hn s hs ⟨hm s hs, ?_, by omega, (contains_iff' h hs a).2 ⟨by omega, ?_⟩⟩
         · unfold SubnetDecl.isV4; rw [e, ho]; rfl
